@@ -629,7 +629,10 @@ def _quarantine(text, ctx, errors):
             reasons['field:%s.%s' % (ikey, fm.group(2))] = msg
         out = '\n'.join(ls)
         if 'pub struct OpaqueField;' not in out:
-            out = out.replace('verus! {\n', 'verus! {\n#[verifier::external_body] pub struct OpaqueField;   // a field type outside the verifier\'s reach (quarantine)\n', 1)
+            out = out.replace('verus! {\n', 'verus! {\n#[verifier::external_body] pub struct OpaqueField;   // a field type outside the verifier\'s reach (quarantine)\n'
+                              'impl Clone for OpaqueField { #[verifier::external_body] fn clone(&self) -> (r: Self) { unimplemented!() } }\n'
+                              'impl Default for OpaqueField { #[verifier::external_body] fn default() -> (r: Self) { unimplemented!() } }\n'
+                              'impl core::fmt::Debug for OpaqueField { #[verifier::external_body] fn fmt(&self, f: &mut core::fmt::Formatter<\'_>) -> core::fmt::Result { unimplemented!() } }\n', 1)
         if hit:
             return None if False else _quarantine_apply(out, hit, reasons)
         return out, reasons
